@@ -109,6 +109,9 @@ _ALPH_ASCII = "abcdefghijklmnopqrstuvwxyzABCDEFGHIJKLMNOPQRSTUVWXYZ0123456789 .,
 _ALPH_LATIN1 = "äöüßéèçñÆØÅ£¥©®µ¿"
 _ALPH_BMP = "ЖдяΩλ中文日本語한국어₽€"
 _ALPH_ASTRAL = "😀🚀𝔘𝕏"
+# text that is not in Unicode normal form C: combining marks after their base letter, singleton / compatibility
+# code points, conjoining Hangul jamo (anything that "normalises" a frame after framing changes its bytes)
+_ALPH_NFD = "e\u0301a\u0308o\u0302n\u0303\u2126\u212b\u1100\u1161\u11a8\ufb01\u00b5"
 
 
 def rand_text(r, n, alphabet=_ALPH_ASCII):
@@ -137,6 +140,8 @@ def app_message(seed, side, k, law="small", charset="ascii"):
         alph = _ALPH_ASCII + _ALPH_LATIN1 + _ALPH_BMP
     elif charset == "astral":
         alph = _ALPH_ASCII + _ALPH_BMP + _ALPH_ASTRAL
+    elif charset == "nfd":
+        alph = _ALPH_ASCII[:30] + _ALPH_NFD * 3
     elif charset == "surrogate":
         # lone surrogates cannot be put on the wire at all: the send must be refused, not mis-framed
         alph = _ALPH_ASCII + "\ud800\udfff"
